@@ -1,5 +1,7 @@
 # coding: utf-8
 """C19 — parts of the same type are interchangeable."""
+EXTRA_OBLIGATION_FILES = ("Props/C03_src.v",)
+
 from harness import common, gens
 from harness.props import C03
 
